@@ -391,6 +391,8 @@ def label_class(label):
     """Class of an event label: operation + kind of file (suffixes), without directories' shank
     letter or occurrence.  e.g. 'write:probe00a/x.ap.cbin_tmp' -> 'write:.ap.cbin_tmp'"""
     op, _, rest = label.partition(":")
+    if op in ("enter", "exit"):
+        return label
     parts = rest.split("->")
 
     def kind(p):
